@@ -95,6 +95,8 @@ func (vc *VC) callStatic(fr *Frame, st *State, callee *ssa.Function, closure *ss
 	}
 	// 2. contracted callee (never inlined)
 	if cc := vc.eng.contracts.lookupFn(callee); cc != nil && closure == nil && !(fr.top && callee == vc.root && false) {
+		vc.callArgVals = argVals
+		defer func() { vc.callArgVals = nil }()
 		return vc.contractCall(fr, st, callee, cc, args, pos)
 	}
 	// 2b. assumed contract on a dependency
@@ -482,6 +484,23 @@ func (vc *VC) contractCall(fr *Frame, st *State, callee *ssa.Function, cc *FuncC
 	cf.specEnv = map[string]specVal{}
 	vc.bindResults(cf, callee, res)
 	for i, e := range cc.Ensures {
+		if m := shapeEnsRe.FindStringSubmatch(e); m != nil {
+			// string-shape postcondition: the result is some string of that language
+			k := 0
+			if m[1] != "" {
+				fmt.Sscanf(m[1], "%d", &k)
+			}
+			if k < len(res) {
+				sh := &Shape{K: "re", S: m[2]}
+				// the callee's own "emits" clauses (proved on its body) carry over, with its
+				// parameter names rewritten to where the caller's arguments come from
+				for _, em := range cc.Emits {
+					sh.Emits = append(sh.Emits, [2]string{em[0], rewriteProv(em[1], callee, vc.callArgVals)})
+				}
+				vc.setShape(res[k], sh)
+			}
+			continue
+		}
 		t, err := vc.specBoolAt(cf, st, pre, e, nil)
 		if err != nil {
 			vc.unsupportedf("ensures %d of %s at call from %s: %v", i+1, cc.Key, fr.fn.Name(), err)
@@ -863,7 +882,6 @@ func (vc *VC) modExternal(c *ssa.CallCommon, out map[string]bool) {
 	}
 }
 
-
 // atCall checks the contract's "atcall <callee> <expr>" assertions in the state just before the call.
 // Inside the expression, arg0, arg1, ... name the call's arguments (arg0 is the receiver of a method).
 func (vc *VC) atCall(fr *Frame, st *State, calleeFn *ssa.Function, args []string, pos token.Pos) {
@@ -915,7 +933,6 @@ func (vc *VC) atCall(fr *Frame, st *State, calleeFn *ssa.Function, args []string
 	}
 }
 
-
 func isStackBase(v ssa.Value) bool {
 	switch x := v.(type) {
 	case *ssa.Alloc:
@@ -925,7 +942,6 @@ func isStackBase(v ssa.Value) bool {
 	}
 	return false
 }
-
 
 func sigTypes(sig *types.Signature, withRecv bool) []types.Type {
 	var out []types.Type
@@ -937,7 +953,6 @@ func sigTypes(sig *types.Signature, withRecv bool) []types.Type {
 	}
 	return out
 }
-
 
 // assumeAfter: input-domain assumptions ("assumeafter <callee> <expr>") taken right after a call;
 // ret0, ret1, ... name the call's results, arg0, ... its arguments. Every use is listed in the evidence.
@@ -979,4 +994,28 @@ func (vc *VC) assumeAfter(fr *Frame, st *State, calleeFn *ssa.Function, args, re
 		vc.fact(st.pc, t)
 		vc.assume("INPUT-DOMAIN (" + vc.fc.Key + ", after " + name + "): " + e)
 	}
+}
+
+// rewriteProv rewrites a provenance path stated over the callee's parameters ("t.TimeOffset",
+// "*t.X") into the caller's terms ("m.Start.TimeOffset").
+func rewriteProv(p string, callee *ssa.Function, argVals []ssa.Value) string {
+	star := ""
+	for strings.HasPrefix(p, "*") {
+		star += "*"
+		p = p[1:]
+	}
+	for i, prm := range callee.Params {
+		if i >= len(argVals) {
+			break
+		}
+		if p == prm.Name() || strings.HasPrefix(p, prm.Name()+".") {
+			ap := provenance(argVals[i], 0)
+			ap = strings.TrimPrefix(ap, "*")
+			if ap == "" {
+				return star + p
+			}
+			return star + ap + p[len(prm.Name()):]
+		}
+	}
+	return star + p
 }
